@@ -24,6 +24,35 @@ Definition P_snap_list (i : snap_in) (snap : list obj) : bool :=
 Definition P_snap (i : snap_in) (snap restart : list obj) (bad : bool) : bool :=
   negb bad && P_snap_list i snap && (if si_restart i then P_snap_list i restart else true).
 
+(* the same over what the entries SHOW: every entry is what the binding's configuration shows
+   of a matching cluster object in its CURRENT state (filter result and, when kept, the whole
+   object - also for changes that touched nothing the filter selects), every matching object
+   is shown, each once, ordered by namespace and name *)
+Definition v_key_ltb (a b : view) : bool :=
+  let '(ans, anm, _, _) := a in let '(bns, bnm, _, _) := b in
+  N.ltb ans bns || (N.eqb ans bns && N.ltb anm bnm).
+Fixpoint v_strictly_sorted (l : list view) : bool :=
+  match l with
+  | [] => true
+  | x :: r => match r with [] => true | y :: _ => v_key_ltb x y && v_strictly_sorted r end
+  end.
+Definition optN_eqb (a b : option N) : bool :=
+  match a, b with Some x, Some y => N.eqb x y | None, None => true | _, _ => false end.
+Definition view_eqb (a b : view) : bool :=
+  let '(ans, anm, af, ao) := a in let '(bns, bnm, bf, bo) := b in
+  N.eqb ans bns && N.eqb anm bnm && optN_eqb af bf && optN_eqb ao bo.
+Definition mem_view (v : view) (l : list view) : bool := existsb (view_eqb v) l.
+Definition expected_view (i : snap_in) (o : obj) : view :=
+  (o_ns o, o_name o,
+   if si_filter i then Some (snd o mod 10) else None,
+   if si_keep i then Some (snd o) else None).
+Definition P_view_list (i : snap_in) (vs : list view) : bool :=
+  v_strictly_sorted vs
+  && forallb (fun v => existsb (fun o => matching i o && view_eqb v (expected_view i o)) (final_cluster i)) vs
+  && forallb (fun o => if matching i o then mem_view (expected_view i o) vs else true) (final_cluster i).
+Definition P_view (i : snap_in) (vs restart : list view) (bad : bool) : bool :=
+  negb bad && P_view_list i vs && (if si_restart i then P_view_list i restart else true).
+
 (* trigger of the recorded finding F26: an object is deleted between the informer's initial
    list and its start *)
 Definition T_ghost (i : snap_in) : bool := match si_ghost i with Some _ => true | None => false end.
